@@ -22,6 +22,7 @@ fn main() {
         "C05" => c05::run(&tier),
         "C06" => c06::run(&tier),
         "C07" => c07::run(&tier),
+        "C08" => c08::run(&tier),
         _ => {
             eprintln!("unknown property {}", id);
             2
